@@ -131,12 +131,16 @@ class Sim:
     def apply(self, m):
         ev, k, i, j, v = m
         if ev == "Start":
+            assert self.phase[i] == "idle"
             self.phase[i] = "keys"
         elif k == 1:
+            assert self.dealt(i, v), "deal bundle not sent yet"
             self.deal[j].add((i, v))
         elif k == 2:
+            assert self.responded(i, v), "response bundle not sent yet"
             self.resp[j].add((i, v))
         else:
+            assert self.shared(i, v), "share message not sent yet"
             if (i, v) not in self.shdel[j]:
                 assert len(self.queue[j]) < self.n
                 self.shdel[j].add((i, v))
@@ -307,7 +311,7 @@ def probe(r, n, t, nv, variant, seed):
     if variant == "coll":
         # everything but i's share message of validator v+1 for j; j ends up collecting v+1 with only i missing
         hold = lambda m: m == ("D", 4, i, j, v + 1) or m[4] > v + 1
-        run_until(lambda: d.phase[j] == "coll" and d.cur[j] == v + 1 and len(d.seen[j]) == n - 1, hold)
+        run_until(lambda: d.phase[j] == "coll" and d.cur[j] == v + 1 and len(d.seen[j]) == n - 1 and d.shared(i, v + 1), hold)
         do(("D", 4, i, j, v))            # the re-delivery
         do(("D", 4, i, j, v + 1))        # the genuine message
     else:
@@ -315,7 +319,8 @@ def probe(r, n, t, nv, variant, seed):
         run_until(lambda: d.cur[j] == v + 1 and d.phase[j] in ("deal", "resp"), lambda m: m[4] > v + 1 or (m[4] == v + 1 and m[1] > 1 and m[3] == j))
         do(("D", 4, i, j, v))            # the re-delivery: waits in j's share channel
         # j finishes its DKG before any genuine share message of v+1 reaches it, then i's genuine message first
-        run_until(lambda: d.phase[j] == "coll" and d.cur[j] == v + 1, lambda m: m[4] > v + 1 or (m[1] == 4 and m[4] == v + 1 and m[3] == j))
+        run_until(lambda: d.phase[j] == "coll" and d.cur[j] == v + 1 and d.shared(i, v + 1),
+                  lambda m: m[4] > v + 1 or (m[1] == 4 and m[4] == v + 1 and m[3] == j))
         do(("D", 4, i, j, v + 1))
     run_until(lambda: d.all_done())
     assert all(s.all_done() and not s.stuck for s in sims)
@@ -323,10 +328,20 @@ def probe(r, n, t, nv, variant, seed):
 
 
 def probe_schedules(seed, thorough):
+    """quick: one probe (the variant alternates with the seed); thorough: both variants over several sizes"""
     r = vlib.rng(seed, "pedprobe")
-    out = [probe(r, 3, 2, 2, "coll", seed), probe(r, 4, 3, 2, "early", seed)]
-    if thorough:
-        out += [probe(r, 5, 2, 3, "coll", seed), probe(r, 3, 3, 3, "early", seed), probe(r, 6, 4, 2, "coll", seed)]
+    todo = [(3, 2, 2, "coll"), (4, 3, 2, "early"), (5, 2, 3, "coll"), (3, 3, 3, "early"), (6, 4, 2, "coll")] if thorough \
+        else [[(3, 2, 2, "coll"), (4, 2, 2, "early"), (4, 3, 3, "coll")][seed % 3]]
+    out = []
+    for (n, t, nv, variant) in todo:
+        for attempt in range(50):
+            try:
+                out.append(probe(r, n, t, nv, variant, seed))
+                break
+            except AssertionError:      # the drawn order ran the as-coded model into a full share channel: draw again
+                continue
+        else:
+            raise vlib.Infra("probe construction failed")
     return out
 
 
@@ -469,45 +484,63 @@ def mutators():
 
 
 # ----------------------------------------------------------------------------------------------
-def design_check(o, tier):
+def design_check_start(o, tier):
+    """design check + the controls that MUST be violated: independent TLC runs, started side by side in the background
+    (the executor and the trace validation run meanwhile); returns a function that waits for them and records the results"""
+    from concurrent.futures import ThreadPoolExecutor
     thorough = tier == "thorough"
     mcs = (["PedersenMC.cfg", "PedersenMC_t3.cfg", "PedersenMC_free.cfg", "PedersenMC_n4.cfg", "PedersenMC_nodup_ascoded.cfg"] if thorough
-           else ["PedersenMC_quick.cfg", "PedersenMC_order_quick.cfg", "PedersenMC_nodup_ascoded.cfg"])
-    for cfg in mcs:
-        r = vlib.tlc(o.pid, FAMILY, "PedersenMC", cfg, timeout=1500)
-        vlib.require_mc_ok(r, cfg)
-        o.add_mc(cfg[:-4], r)
-    for cfg, inv, what in CONTROLS:
-        r = vlib.tlc(o.pid, FAMILY, "PedersenMC", cfg, timeout=600)
-        if r.violation != inv:
-            raise vlib.Infra("Pedersen design-spec control failed: '%s' not caught by %s: %s" % (what, inv, r.summary()))
-        o.selftests.append({"control": "Pedersen spec variant '%s' violates %s" % (what, inv), "rejected_as_required": True})
+           else ["PedersenMC_quick.cfg", "PedersenMC_order_quick.cfg"])
+    jobs = [(cfg, None, None) for cfg in mcs] + list(CONTROLS)
+    dirs = [vlib.scratch(o.pid, FAMILY) for _ in jobs]          # vlib.scratch is not thread-safe: all of them now
+    big = max(4, vlib.NCPU // 2)
+
+    def one(k):
+        cfg, inv, _ = jobs[k]
+        return vlib.tlc(o.pid, FAMILY, "PedersenMC", cfg, workers=big if inv is None else 2, timeout=1700, sdir=dirs[k])
+    ex = ThreadPoolExecutor(max_workers=3 if thorough else len(jobs))
+    futs = [ex.submit(one, k) for k in range(len(jobs))]
+
+    def finish():
+        results = [f.result() for f in futs]
+        ex.shutdown()
+        for (cfg, inv, what), r in zip(jobs, results):
+            if inv is None:
+                vlib.require_mc_ok(r, cfg)
+                o.add_mc(cfg[:-4], r)
+            elif r.violation != inv:
+                raise vlib.Infra("Pedersen design-spec control failed: '%s' not caught by %s: %s" % (what, inv, r.summary()))
+            else:
+                o.selftests.append({"control": "Pedersen spec variant '%s' violates %s" % (what, inv), "rejected_as_required": True})
+    return finish
 
 
 def stage(o, tier, seed):
     """Run the Pedersen family as an extra stage of C11."""
     t0 = time.time()
     thorough = tier == "thorough"
-    design_check(o, tier)
-    g, _ = vlib.gen_schedules(o.pid, FAMILY, "PedersenGen", "PedersenGen_thorough.cfg" if thorough else "PedersenGen.cfg",
-                              num=300 if thorough else 40, depth=500, seed=seed, limit=300 if thorough else 40)
-    gen = from_tlc(g, seed)
-    rnd = random_schedules(seed, 400 if thorough else 42) + corner_schedules(seed)
-    kw = dict(chunk=12, exec_timeout=1500, tv_timeout=900, dev_cfgs=DEV)
-    nself = len(o.selftests)
-    vlib.conformance(o, FAMILY, TRACE, TCFG, PKG, gen, tag="ped_tlcgen", **kw)
-    vlib.conformance(o, FAMILY, TRACE, TCFG, PKG, rnd, tag="ped_random", **kw)
-    nk = len(o.known)
-    vlib.conformance(o, FAMILY, TRACE, TCFG, PKG, probe_schedules(seed, thorough), tag="ped_probe", **kw)
-    o.extra["pedersen_probe_reports_known_finding"] = len(o.known) > nk
-    if not o.violations:
-        tr = [t for t in vlib.split_traces(vlib.read_ndjson(os.path.join(vlib.workdir(o.pid), "trace_ped_random.ndjson")))
-              if t and t[-1].get("ev") == "Check"]
-        tr.sort(key=lambda t: (t[0]["V"] < 2, len(t)))
-        ms = mutators()
-        vlib.binding_selftest(o, FAMILY, TRACE, TCFG, tr, ms)
-        if len(o.selftests) - nself < len(ms):
-            raise vlib.Infra("Pedersen binding self-test: some negative control found no applicable trace")
+    design_done = design_check_start(o, tier)
+    try:
+        g, _ = vlib.gen_schedules(o.pid, FAMILY, "PedersenGen", "PedersenGen_thorough.cfg" if thorough else "PedersenGen.cfg",
+                                  num=300 if thorough else 30, depth=500, seed=seed, limit=300 if thorough else 30)
+        gen = from_tlc(g, seed)
+        rnd = random_schedules(seed, 400 if thorough else 30) + corner_schedules(seed)
+        kw = dict(chunk=40 if thorough else 5, exec_timeout=1500, tv_timeout=900, dev_cfgs=DEV)
+        vlib.conformance(o, FAMILY, TRACE, TCFG, PKG, gen + rnd, tag="ped_main", **kw)
+        nk = len(o.known)
+        vlib.conformance(o, FAMILY, TRACE, TCFG, PKG, probe_schedules(seed, thorough), tag="ped_probe", **kw)
+        o.extra["pedersen_probe_reports_known_finding"] = len(o.known) > nk
+        if not o.violations:
+            tr = [t for t in vlib.split_traces(vlib.read_ndjson(os.path.join(vlib.workdir(o.pid), "trace_ped_main.ndjson")))
+                  if t and t[-1].get("ev") == "Check"]
+            tr.sort(key=lambda t: (t[0]["V"] < 2, len(t)))
+            ms = mutators()
+            nself = len(o.selftests)
+            vlib.binding_selftest(o, FAMILY, TRACE, TCFG, tr, ms)
+            if len(o.selftests) - nself < len(ms):
+                raise vlib.Infra("Pedersen binding self-test: some negative control found no applicable trace")
+    finally:
+        design_done()
     o.extra["pedersen_ceremonies"] = len(gen) + len(rnd)
     o.notes.append(RULE)
     log("[%s] Pedersen stage: %d TLC-generated + %d seeded ceremonies + probes, %.0fs" % (o.pid, len(gen), len(rnd), time.time() - t0))
